@@ -121,10 +121,10 @@ Qed.
 Lemma slot_at_out a i : length (tab a) <= i -> slot_at a i = free_slot.
 Proof. intros H. unfold slot_at. apply nth_overflow. exact H. Qed.
 
-Lemma slot_at_upd_eq t led c i s : i < length t -> slot_at (mkadf (upd t i s) led c) i = s.
+Lemma slot_at_upd_eq t led c am i s : i < length t -> slot_at (mkadf (upd t i s) led c am) i = s.
 Proof. intros H. unfold slot_at. simpl. apply nth_upd_eq. exact H. Qed.
 
-Lemma slot_at_upd_neq t led c i j s : i <> j -> slot_at (mkadf (upd t i s) led c) j = slot_at (mkadf t led c) j.
+Lemma slot_at_upd_neq t led c am i j s : i <> j -> slot_at (mkadf (upd t i s) led c am) j = slot_at (mkadf t led c am) j.
 Proof. intros H. unfold slot_at. simpl. apply nth_upd_neq. exact H. Qed.
 
 Lemma upd_out {A} (l : list A) n v : length l <= n -> upd l n v = l.
@@ -620,7 +620,7 @@ Proof.
   - split; [lia|]. intros H. apply IH2. lia.
 Qed.
 
-Lemma slot_at_app_free t led c k i : slot_at (mkadf (t ++ repeat free_slot k) led c) i = slot_at (mkadf t led c) i.
+Lemma slot_at_app_free t led c am k i : slot_at (mkadf (t ++ repeat free_slot k) led c am) i = slot_at (mkadf t led c am) i.
 Proof.
   unfold slot_at. simpl. destruct (Nat.lt_ge_cases i (length t)) as [H|H].
   - apply app_nth1. exact H.
@@ -631,7 +631,7 @@ Proof.
 Qed.
 
 (* what ADFI_open_file does to the table *)
-Lemma adfi_open_file_spec a n os_ok a1 r : adfi_open_file a n os_ok = (a1, r) ->
+Lemma adfi_open_file_spec a n hdr os_ok a1 r : adfi_open_file a n hdr os_ok = (a1, r) ->
   match r with
   | Some i => in_use (slot_at a i) = 0 /\ i < length (tab a1) /\ slot_at a1 i = mkslot 1 true (Some n) [] /\
               (forall j, j <> i -> slot_at a1 j = slot_at a j) /\ ledger a1 = n :: ledger a
@@ -641,11 +641,12 @@ Lemma adfi_open_file_spec a n os_ok a1 r : adfi_open_file a n os_ok = (a1, r) ->
 Proof.
   unfold adfi_open_file. destruct (find_free_spec (tab a)) as [F1 F2].
   set (i := find_free (tab a)) in *.
-  set (t1 := if i <? length (tab a) then tab a else tab a ++ repeat free_slot ADF_FILE_INC).
-  assert (S1 : forall j led c, slot_at (mkadf t1 led c) j = slot_at a j).
-  { intros j led c. unfold t1. destruct (i <? length (tab a)); [reflexivity|]. rewrite slot_at_app_free. reflexivity. }
+  set (t1 := if negb (i <? length (tab a)) then tab a ++ repeat free_slot ADF_FILE_INC else tab a).
+  set (m1 := if negb (i <? length (tab a)) then amem a ++ repeat zero_attr ADF_FILE_INC else amem a).
+  assert (S1 : forall j led c am, slot_at (mkadf t1 led c am) j = slot_at a j).
+  { intros j led c am. unfold t1. destruct (i <? length (tab a)); cbn [negb]; [reflexivity|]. rewrite slot_at_app_free. reflexivity. }
   assert (Li : i < length t1).
-  { unfold t1. destruct (Nat.ltb_spec i (length (tab a))); [lia|]. rewrite app_length, repeat_length. unfold ADF_FILE_INC. lia. }
+  { unfold t1. destruct (Nat.ltb_spec i (length (tab a))); cbn [negb]; [lia|]. rewrite app_length, repeat_length. unfold ADF_FILE_INC. lia. }
   assert (Z : in_use (slot_at a i) = 0).
   { destruct (Nat.lt_ge_cases i (length (tab a))) as [H|H]; [apply F2; exact H|]. rewrite slot_at_out by lia. reflexivity. }
   destruct (MAXIMUM_FILES <? i).
@@ -707,7 +708,7 @@ Lemma adf_open_fail_ledger v fuel w a n rw a' :
 Proof.
   unfold adf_database_open. intros H.
   assert (G : forall k, k = kind_of w n -> k <> KMissing ->
-     (let '(a1, oi) := adfi_open_file a n (os_open_ok k rw) in
+     (let '(a1, oi) := adfi_open_file a n (if header_ok k then Some (file_attr w n) else None) (os_open_ok k rw) in
          match oi with
          | None => Some (a1, None)
          | Some i => if header_ok k then Some (a1, Some i)
@@ -716,8 +717,8 @@ Proof.
                           | Some (a2, _) => Some (a2, None)
                           end
          end) = Some (a', None) -> ledger a' = ledger a).
-  { intros k _ _. destruct (adfi_open_file a n (os_open_ok k rw)) as [a1 [i|]] eqn:Op;
-      pose proof (adfi_open_file_spec _ _ _ _ _ Op) as Sp; simpl in Sp.
+  { intros k _ _. destruct (adfi_open_file a n (if header_ok k then Some (file_attr w n) else None) (os_open_ok k rw)) as [a1 [i|]] eqn:Op;
+      pose proof (adfi_open_file_spec _ _ _ _ _ _ Op) as Sp; simpl in Sp.
     - destruct (header_ok k); [discriminate|]. destruct Sp as (Z & Li & E1 & E2 & El).
       destruct (adfi_close_file v fuel a1 i) as [[a2 e]|] eqn:Cl; [|discriminate].
       intros Q. inversion Q; subst. destruct (close_fresh _ _ _ _ _ _ _ Li E1 Cl) as [-> _].
@@ -882,7 +883,7 @@ Lemma adf_open_inv w a U fuel n rw a1 r :
 Proof.
   intros H. unfold adf_database_open.
   assert (G : forall k,
-     (let '(a1', oi) := adfi_open_file a n (os_open_ok k rw) in
+     (let '(a1', oi) := adfi_open_file a n (if header_ok k then Some (file_attr w n) else None) (os_open_ok k rw) in
          match oi with
          | None => Some (a1', None)
          | Some i => if header_ok k then Some (a1', Some i)
@@ -896,8 +897,8 @@ Proof.
                  (forall j, j <> i -> slot_at a1 j = slot_at a j)
      | None => Inv w a1 U []
      end).
-  { intros k. destruct (adfi_open_file a n (os_open_ok k rw)) as [a1' [i|]] eqn:Op;
-      pose proof (adfi_open_file_spec _ _ _ _ _ Op) as Sp; simpl in Sp.
+  { intros k. destruct (adfi_open_file a n (if header_ok k then Some (file_attr w n) else None) (os_open_ok k rw)) as [a1' [i|]] eqn:Op;
+      pose proof (adfi_open_file_spec _ _ _ _ _ _ Op) as Sp; simpl in Sp.
     - destruct Sp as (Z & Li & E1 & E2 & El). pose proof (open_inv _ _ _ _ _ _ H Z E1 E2 El) as Hi.
       destruct (header_ok k).
       + intros Q. inversion Q; subst. auto.
@@ -1161,9 +1162,9 @@ Proof.
     intros Q. inversion Q; subst. eapply IH; [|exact Rn]. eapply step_inv; eauto.
 Qed.
 
-Lemma Inv_init w : Inv w (mkadf [] [] None) [] [].
+Lemma Inv_init w : Inv w (mkadf [] [] None []) [] [].
 Proof.
-  assert (S0 : forall i, slot_at (mkadf [] [] None) i = free_slot) by (intros [|i]; reflexivity).
+  assert (S0 : forall i, slot_at (mkadf [] [] None []) i = free_slot) by (intros [|i]; reflexivity).
   constructor.
   - intros x. rewrite S0. reflexivity.
   - intros i _. apply S0.
@@ -1221,7 +1222,7 @@ Proof. intros. eapply adf_open_fail_ledger; eauto. Qed.
    (the first one on to B).  Closing the first C handle closes B although A (still open, still linking to it) remains;
    closing A then reports ADF_FILE_NOT_OPENED (its links[] names the dead slot) AFTER having dropped A's reference, so
    cgio keeps the slot: every file has been closed by its user and one cgio handle is held for ever. *)
-Definition w1 : world := mkW [KOk; KOk; KOk] [(0, 1); (2, 0)] [].
+Definition w1 : world := mkW [KOk; KOk; KOk] [(0, 1); (2, 0)] [] [].
 Definition ops1 : list op :=
   [OOpen 0 false; OOpen 2 false; OOpen 2 false; OWalk 2 [(0, false); (1, false)]; OWalk 3 [(0, false)]; OClose 2; OClose 1; OClose 3].
 
@@ -1254,10 +1255,10 @@ Lemma refuted_premature_close :
 Proof. run_concrete. repeat split; reflexivity. Qed.
 
 (* W2: two files that link to each other.  ADFI_close_file never returns, whatever the fuel (the C: stack overflow). *)
-Definition w2 : world := mkW [KOk; KOk] [(0, 1); (1, 0)] [].
+Definition w2 : world := mkW [KOk; KOk] [(0, 1); (1, 0)] [] [].
 Definition ops2 : list op := [OOpen 0 false; OWalk 1 [(1, false); (0, false)]; OClose 1].
 Definition a2 : adf := mkadf [mkslot 2 true (Some 0) [1]; mkslot 1 true (Some 1) [0]; free_slot; free_slot; free_slot] [1; 0]
-                            (Some (1, 0, 0)).
+                            (Some (1, 0, 0)) [layout_attr LNative; layout_attr LNative; zero_attr; zero_attr; zero_attr].
 
 Definition top_ok (stk : list frame) : Prop :=
   match stk with
@@ -1274,7 +1275,8 @@ Qed.
 Lemma refuted_cycle : forall fuel, run Old fuel w2 io_init [] ops2 = None.
 Proof.
   intros fuel. unfold ops2.
-  set (s1 := mkio (mkadf [mkslot 1 true (Some 0) []; free_slot; free_slot; free_slot; free_slot] [0] None)
+  set (s1 := mkio (mkadf [mkslot 1 true (Some 0) []; free_slot; free_slot; free_slot; free_slot] [0] None
+                         [layout_attr LNative; zero_attr; zero_attr; zero_attr; zero_attr])
                   [Some 0; None; None; None; None] 1).
   set (s2 := mkio a2 [Some 0; None; None; None; None] 1).
   assert (S1 : step Old fuel w2 io_init (OOpen 0 false) = Some (s1, ResOpen (Some 1))) by reflexivity.
@@ -1492,7 +1494,7 @@ Proof. intros H C. split; [eapply chase_dangling_fails; eauto|eapply chase_inv; 
 
 (* file 0 links to the existing file 1 with a path that does not exist there: the lookup fails, file 1 is open and listed in
    links[] of file 0; closing file 0 releases both *)
-Definition w3 : world := mkW [KOk; KOk] [] [(0, 1)].
+Definition w3 : world := mkW [KOk; KOk] [] [(0, 1)] [].
 Lemma dangling_example :
   exists s rs, run Cur 1000 w3 io_init [] [OOpen 0 false; OWalk 1 [(1, true)]] = Some (s, [1], rs) /\
                rs = [ResOpen (Some 1); ResWalk false] /\ ledger (io_adf s) = [1; 0] /\ links (slot_at (io_adf s) 0) = [1] /\
